@@ -234,7 +234,7 @@ PROPS = {
 
 
 # properties stated over a layer that other properties establish are checked together with those (units and stand-ins)
-_DEPS = {'C03': ['C04', 'C05'], 'C09': ['C05'], 'C10': ['C07'], 'C11': ['C04'], 'C16': ['C08'], 'C17': ['C03'], 'C18': ['C03', 'C05']}
+_DEPS = {'C03': ['C04', 'C05'], 'C05': ['C04'], 'C09': ['C05'], 'C10': ['C07'], 'C11': ['C04'], 'C16': ['C08'], 'C17': ['C03'], 'C18': ['C03', 'C05']}
 for _k, _d in _DEPS.items():
     PROPS[_k]['deps'] = sorted(set(PROPS[_k].get('deps') or []) | set(_d))
 PROPS['C16']['modules'] = list(PROPS['C16']['modules']) + ['contracts.iso_api']
